@@ -147,6 +147,16 @@ def diagNorm (ord : Ord) (d : List α) : Except String α :=
   | .none => .error "value"
   | k => absNorm k (d.map HasAbs.abs)
 
+/-- `Diagonal(d, input_shape).norm(ord)`: `square` = the diagonal does not broadcast the *input*
+    (`output_shape == input_shape`); `full` = the diagonal broadcast to the input shape, i.e. the diagonal of
+    the operator's matrix.  A non-square operator is rejected (`ValueError` mentioning the shapes). -/
+def diagNormShaped (square : Bool) (ord : Ord) (full : List α) : Except String α :=
+  match diagKey ord with
+  | .int _ => .error "value"
+  | .other => .error "value"
+  | .none => .error "value"
+  | _ => if square then diagNorm ord full else .error "shape"
+
 /-- `|z|` of a complex number given as `(re, im)` -/
 def cabs (z : α × α) : α := HasSqrt.sqrt (z.1 * z.1 + z.2 * z.2)
 
